@@ -2,7 +2,7 @@
 import ast
 import z3
 
-from .vals import (VInt, VBool, VReal, VNone, NONE, VObj, VTup, VOpt, VRef, VFunc, VClass, VExc,
+from .vals import (VInt, VBool, VReal, VNone, NONE, VObj, VTup, VOpt, VRef, VFunc, VClass, VExc, VUnb,
                    HList, HDict, HRec, sort_of, usort, to_z3, from_z3, fresh_name, type_of_val,
                    T_INT, T_BOOL, T_STR, T_ANY, type_name)
 from .state import Unsupported, ContractError, fresh_val, fresh_hlist, fresh_hdict, empty_hlist, empty_hdict
@@ -87,6 +87,8 @@ class ExprMixin:
             if self.spec:
                 raise ContractError("unknown name %r in a specification" % node.id)
             return self.raise_(st, 'NameError')
+        if isinstance(v, VUnb):
+            return self.guard(st, v.bound, 'NameError', 'unbound', node, lambda s: k(s, v.val))
         return k(st, v)
 
     def load_name(self, name, st):
@@ -598,7 +600,9 @@ class ExprMixin:
         if kv is None:
             return k(st, st.alloc(HList(None, None, z3.IntVal(0))))
         val = kv[1]
-        et = type_of_val(val, st)
+        et = self.anyfy(type_of_val(val, st))
+        if not node.generators[0].ifs:
+            return k(st, st.alloc(HList(et, z3.Lambda([i], to_z3(val, et)), src.n)))
         R = fresh_hlist(et, 'comp', st)
         f = z3.Function(fresh_name('cf'), z3.IntSort(), z3.IntSort())
         g = z3.Function(fresh_name('cg'), z3.IntSort(), z3.IntSort())
@@ -616,6 +620,14 @@ class ExprMixin:
         return k(st, st.alloc(R))
 
     ev_GeneratorExp = ev_ListComp
+
+    def anyfy(self, t):
+        """element types of containers: None has no sort of its own, it lives in the catch-all sort Any."""
+        if t == ('none',):
+            return T_ANY
+        if t[0] == 'tuple':
+            return ('tuple', tuple(self.anyfy(a) for a in t[1]))
+        return t
 
     def ev_DictComp(self, node, st, k):
         src, i, cond, kv = self.comp_parts(node, st)
